@@ -78,16 +78,8 @@ def summary_repr(obj):
         return f"raises {type(exc).__name__}"
 
 
-def run_case(case):
-    fit, obj = c04.fitted_object(case)
-    res = {"violations": [], "sample": dict(case)}
-    viol = res["violations"]
-    if obj is None:
-        res["outcome"] = "fit-" + fit["status"]
-        return res
-    if not obj.features:
-        res["outcome"] = "all-dropped"
-        return res
+def roundtrip(obj, X, case, viol, tag=""):
+    """dump -> load -> compare transform outcomes, summary and second dump. returns number of frames compared"""
     from AutoCarver import load_carver
     from AutoCarver.discretizers.utils.base_discretizers import load_discretizer
 
@@ -95,16 +87,13 @@ def run_case(case):
     try:
         dumped = json.dumps(obj.to_json())
     except Exception as exc:  # noqa
-        viol.append({"kind": "not-serialisable", "what": f"json.dumps(to_json()) raised {type(exc).__name__}: {str(exc)[:100]}"})
-        res["outcome"] = "dump-fails"
-        return res
+        viol.append({"kind": tag + "not-serialisable", "what": f"{tag}json.dumps(to_json()) raised {type(exc).__name__}: {str(exc)[:100]}"})
+        return 0
     try:
         obj2 = (load_carver if is_carver else load_discretizer)(json.loads(dumped))
     except Exception as exc:  # noqa
-        viol.append({"kind": "load-fails", "what": f"load raised {type(exc).__name__}: {str(exc)[:120]} ({space.innermost_frame(exc)})"})
-        res["outcome"] = "load-fails"
-        return res
-    X = fit["X"]
+        viol.append({"kind": tag + "load-fails", "what": f"{tag}load raised {type(exc).__name__}: {str(exc)[:120]} ({space.innermost_frame(exc)})"})
+        return 0
     feats = list(obj.features)
     n = 0
     for f in feats:
@@ -120,25 +109,60 @@ def run_case(case):
             a, b = outcome_of(obj, fr, f), outcome_of(obj2, fr, f)
             n += 1
             if not same_outcome(a, b):
-                viol.append({"kind": "transform-differs", "what": f"{f} on frame '{name}': original -> {str(a[:2])[:120]}, reloaded -> {str(b[:2])[:120]}"})
+                viol.append({"kind": tag + "transform-differs", "what": f"{tag}{f} on frame '{name}': original -> {str(a[:2])[:120]}, reloaded -> {str(b[:2])[:120]}"})
                 break
     s1, s2 = summary_repr(obj), summary_repr(obj2)
     if s1 != s2:
-        viol.append({"kind": "summary-differs", "what": f"summary differs after reload: {s1[:150]} vs {s2[:150]}"})
+        viol.append({"kind": tag + "summary-differs", "what": f"{tag}summary differs after reload: {s1[:150]} vs {s2[:150]}"})
     try:
         dumped2 = json.dumps(obj2.to_json())
         j1, j2 = json.loads(dumped), json.loads(dumped2)
-        # values_orders is itself a JSON string: compare as JSON values
         for j in (j1, j2):
             if isinstance(j.get("values_orders"), str):
                 j["values_orders"] = json.loads(j["values_orders"])
         if canon_json(j1) != canon_json(j2):
             diff = [k for k in set(j1) | set(j2) if canon_json(j1.get(k)) != canon_json(j2.get(k))]
-            viol.append({"kind": "second-dump-differs:" + ",".join(sorted(diff)), "what": f"to_json() of the reloaded object differs from the first dump in keys {sorted(diff)}"})
+            viol.append({"kind": tag + "second-dump-differs:" + ",".join(sorted(diff)), "what": f"{tag}to_json() of the reloaded object differs from the first dump in keys {sorted(diff)}"})
     except Exception as exc:  # noqa
-        viol.append({"kind": "second-dump-fails", "what": f"to_json of the reloaded object raised {type(exc).__name__}: {str(exc)[:100]}"})
+        viol.append({"kind": tag + "second-dump-fails", "what": f"{tag}to_json of the reloaded object raised {type(exc).__name__}: {str(exc)[:100]}"})
+    return n
+
+
+def run_case(case):
+    fit, obj = c04.fitted_object(case)
+    res = {"violations": [], "sample": dict(case)}
+    viol = res["violations"]
+    if obj is None:
+        res["outcome"] = "fit-" + fit["status"]
+        return res
+    if not obj.features:
+        res["outcome"] = "all-dropped"
+        return res
+    X = fit["X"]
+    feats = list(obj.features)
+    n = roundtrip(obj, X, case, viol)
+    # manually edited groups (one edit of each mode, applied to fresh copies), then the same oracle
+    edited = 0
+    if case["type"] == "carver" and case["carver"] != "multiclass" and "f" in obj.features and not viol:
+        import pickle
+
+        from . import c17
+
+        blob = pickle.dumps(obj)
+        evs = c17.enabled(obj, X, case["kind"])
+        picks = [next((e for e in evs if e[0] == "replace"), None), next((e for e in evs if e[0] == "group" and e[1] != "NaN"), None), next((e for e in evs if e[1] == "NaN"), None)]
+        for ev in picks:
+            if ev is None:
+                continue
+            o2 = pickle.loads(blob)
+            try:
+                c17.apply_edit(o2, ev)
+            except Exception:  # noqa  (C17 judges the edit itself)
+                continue
+            n += roundtrip(o2, X, case, viol, tag=f"after update_discretizer{tuple(ev)}: ")
+            edited += 1
     res["evaluations"] = n
-    res["outcome"] = f"{case['type']}:{case.get('cls', case.get('carver'))}:{case['kind']}:{case['vt']}"
+    res["outcome"] = f"{case['type']}:{case.get('cls', case.get('carver'))}:{case['kind']}:{case['vt']}" + (f":edits{edited}" if edited else "")
     res["nontrivial"] = repr(sorted(case.items(), key=str)) if len(obj.values_orders[feats[0]]) >= 2 else None
     return res
 
